@@ -207,7 +207,7 @@ def run(tier, seed):
     return {"coverage": coverage, "violations": violations}
 
 
-def replay(case):
+def _replay_single(case):
     loader.install_shims()
     ld, info = e3.replay_program(case["tier"], int(case["index"]))
     if ld.cls is None:
@@ -217,3 +217,15 @@ def replay(case):
     if what and what != "skip":
         return f"[{info.ident}] bytes {bytes(case['data']).hex()}: {what}\n{p.node.xml()}"
     return None
+
+
+def replay(case):
+    what = _replay_single(case)
+    if what:
+        return what
+    if case.get("kind") in ("spelling",):
+        return None
+    what = e3.replay_whole(case["tier"], int(case["index"]), Judge())
+    if what or not case.get("shard"):
+        return what
+    return e3.replay_shard(case["tier"], case["shard"], Judge())
